@@ -12,8 +12,8 @@ if [ "${id:0:3}" = "C17" ] || [ "${id:0:3}" = "C18" ]; then
   cat >> Cargo.toml <<'EOT'
 
 [patch.crates-io]
-blas-src = { path = "/tmp/blaskit/stubs/blas-src" }
-lapack-src = { path = "/tmp/blaskit/stubs/lapack-src" }
+blas-src = { path = "/verif/tools/blaskit/stubs/blas-src" }
+lapack-src = { path = "/verif/tools/blaskit/stubs/lapack-src" }
 EOT
   feat="--features sdp-r,verif"
 elif grep -qE "clarabel::verif|feature = \"verif\"|verif_" /verif/seeded/$id/demo.rs; then
